@@ -546,6 +546,11 @@ printf("dgssvx: Fact=%4d, Trans=%4d, equed=%c\n",
 	
 	if ( lwork == -1 ) {
 	    mem_usage->total_needed = *info - A->ncol;
+	    Destroy_CompCol_Permuted(&AC);
+	    if ( A->Stype == SLU_NR ) {
+		Destroy_SuperMatrix_Store(AA);
+		SUPERLU_FREE(AA);
+	    }
 	    return;
 	}
     }
@@ -556,6 +561,13 @@ printf("dgssvx: Fact=%4d, Trans=%4d, equed=%c\n",
 	       rank-deficient (*info) columns of A. */
 	    *recip_pivot_growth = sPivotGrowth(*info, AA, perm_c, L, U);
         }
+	/* Nothing more can be done: release the permuted copy (and the
+	   transposed header for row-wise input) like the normal exit. */
+	if ( nofact ) Destroy_CompCol_Permuted(&AC);
+	if ( A->Stype == SLU_NR ) {
+	    Destroy_SuperMatrix_Store(AA);
+	    SUPERLU_FREE(AA);
+	}
 	return;
     }
 
